@@ -81,7 +81,8 @@ Definition lcheck (tol : Q) (c : lcase) : bool * Z :=
   let sim := fun idx => tunflat d shsub (lookup idx (lc_sims c)) in
   let model := tunflat d shseq (lc_model c) in
   let out := tflat d (lowpass d pops (lc_thr c) sim model) in
-  let use := tflat d (tmapi d (fun idx _ => if use_sim pops (lc_thr c) idx then 1 else 0) [] model) in
+  let vecs := pnc_vecs pops in
+  let use := tflat d (tmapi d (fun idx _ => if use_sim_v (lc_thr c) vecs idx then 1 else 0) [] model) in
   let use_ok := bools_eqb (map (fun u => negb (Qeq_bool u 0)) use) (lc_use c) in
   let s := Qmaxl (Qabsmax out :: Qabsmax (lc_out c) :: nil) in
   let s := if Qle_bool s 0 then 1 else s in
